@@ -163,6 +163,8 @@ def model_decode(case, r):
 def equal(case, a, b):
     if not isinstance(a, dict) or "serial" not in a or "serial" not in b:
         return False
+    if len(a["serial"]) != len(b["serial"]) or len(a["serial"]) != len(case["queries"]):
+        return False                      # one answer per query on both sides
     return all(y == ["skip"] or x == y for x, y in zip(a["serial"], b["serial"]))
 
 
